@@ -3,7 +3,7 @@
    Same model and same proofs as C01 (Model/AtomicConc.v, Proofs/AtomicConcFacts.v); the sequential specification
    `spec_step` covers set / inc / dec / add / sub / get.  IntGauge: one store / fetch_add / fetch_sub / load on the
    two's complement pattern; Gauge: store, load, and the load / compare_exchange_weak loop with dec_by d = inc_by (-d). *)
-Require Import PV.Base.Prelude PV.Base.F64 PV.Model.Conc PV.Model.AtomicConc PV.Proofs.AtomicConcFacts PV.Spec.SpecC01 PV.Spec.SpecC11 PV.Proofs.AtomicSpecFacts.
+Require Import PV.Base.Prelude PV.Base.F64 PV.Model.Conc PV.Model.AtomicConc PV.Proofs.AtomicConcFacts PV.Spec.SpecC01 PV.Spec.SpecC11 PV.Proofs.AtomicSpecFacts PV.Proofs.AtomicSpecFull.
 From Coq Require Import Permutation Floats Reals Lra.
 From Flocq Require Import Core BinarySingleNaN PrimFloat.
 Open Scope N_scope.
@@ -91,19 +91,25 @@ Proof.
   lra.
 Qed.
 
-(* ---- validator accepts the trace => the executable spec holds.
-   FULL STATEMENT:  forall isf es, trace_ok (ops isf) es = true -> in_domain es = true -> spec_c11 isf es = true,
-   where spec_c11 = no panic / hang && only gauge calls && read-subset clause (traces without set) && linearisation search.
-   PROVED (c11_spec_of_validated_partial_int, _float): "no panic / hang", "only gauge calls" and the linearisation search - the definition of
-   the property itself - which FINDS a linearisation whatever the number of calls; executable side conditions: every invoked call
-   is a gauge call (calls_in gauge_call) and, for IntGauge, the argument patterns are 64-bit (gauge_dom).
-   NOT PROVED here: the redundant read-subset clause (spec_c11_A) as a boolean function of the trace. *)
-Theorem c11_spec_of_validated_partial_int es :
+(* ---- validator accepts the trace => the executable spec (written from the property text) is true.
+   spec_c11 = no panic / hang && only gauge calls && read-subset clause (traces without set, small amounts) && linearisation search.
+   INTEGER FLAVOUR, FULL STATEMENT, PROVED:  c11_spec_of_validated_int :
+       trace_ok IntOps es = true -> dom11_int es = true -> spec_c11 false es = true
+     executable domain dom11_int: gauge calls with 64-bit argument patterns, 64-bit returned patterns, the absolute amounts of the
+     trace sum to less than 2^63 (no i64 overflow; needed by the read-subset clause only).  The read-subset clause is derived
+     from the linearisation the search finds.
+   FLOAT FLAVOUR:  FULL STATEMENT  trace_ok FloatOps es = true -> calls_in gauge_call es = true -> spec_c11 true es = true.
+     PROVED (c11_spec_of_validated_float_partial): no panic / hang, only gauge calls, the linearisation search - the definition of the
+     property.  The ONLY missing item is the (redundant) read-subset clause for floats, spec_c11_A true es = true (exactness of
+     binary64 sums inside exact_window); c11_spec_from_clauses shows that it is all that is missing. *)
+Theorem c11_search_of_validated_int es :
   trace_ok IntOps es = true -> calls_in gauge_dom es = true -> spec_c11_core false es = true.
 Proof. exact (c11_core_of_validated_int es). Qed.
-Theorem c11_spec_of_validated_partial_float es :
+Theorem c11_spec_of_validated_float_partial es :
   trace_ok FloatOps es = true -> calls_in gauge_call es = true -> spec_c11_core true es = true.
 Proof. exact (c11_core_of_validated_float es). Qed.
+Theorem c11_spec_of_validated_int es : trace_ok IntOps es = true -> dom11_int es = true -> spec_c11 false es = true.
+Proof. exact (c11_spec_of_validated_int_full es). Qed.
 Theorem c11_spec_from_clauses isf es : spec_c11_core isf es = true -> spec_c11_A isf es = true -> spec_c11 isf es = true.
 Proof. exact (spec_c11_from_clauses isf es). Qed.
 
@@ -143,12 +149,15 @@ Example c11_igauge_trace_valid : trace_ok IntOps igauge_trace = true /\ spec_c11
 Proof. split; vm_compute; reflexivity. Qed.
 
 Example c11_gauge_trace_in_domain : calls_in gauge_call gauge_trace = true /\ spec_c11_core true gauge_trace = true.
-Proof. split; [vm_compute; reflexivity|]. apply c11_spec_of_validated_partial_float; [exact (proj1 c11_gauge_trace_valid)|vm_compute; reflexivity]. Qed.
+Proof. split; [vm_compute; reflexivity|]. apply c11_spec_of_validated_float_partial; [exact (proj1 c11_gauge_trace_valid)|vm_compute; reflexivity]. Qed.
 Example c11_igauge_trace_in_domain : calls_in gauge_dom igauge_trace = true /\ spec_c11_core false igauge_trace = true.
-Proof. split; [vm_compute; reflexivity|]. apply c11_spec_of_validated_partial_int; [exact (proj1 c11_igauge_trace_valid)|vm_compute; reflexivity]. Qed.
+Proof. split; [vm_compute; reflexivity|]. apply c11_search_of_validated_int; [exact (proj1 c11_igauge_trace_valid)|vm_compute; reflexivity]. Qed.
 
-Check c11_spec_of_validated_partial_int : forall es, trace_ok IntOps es = true -> calls_in gauge_dom es = true -> spec_c11_core false es = true.
-Check c11_spec_of_validated_partial_float : forall es, trace_ok FloatOps es = true -> calls_in gauge_call es = true -> spec_c11_core true es = true.
+Example c11_igauge_trace_spec_by_theorem : dom11_int igauge_trace = true /\ spec_c11 false igauge_trace = true.
+Proof. split; [vm_compute; reflexivity|]. apply c11_spec_of_validated_int; [exact (proj1 c11_igauge_trace_valid)|vm_compute; reflexivity]. Qed.
+Check c11_spec_of_validated_int : forall es, trace_ok IntOps es = true -> dom11_int es = true -> spec_c11 false es = true.
+Check c11_search_of_validated_int : forall es, trace_ok IntOps es = true -> calls_in gauge_dom es = true -> spec_c11_core false es = true.
+Check c11_spec_of_validated_float_partial : forall es, trace_ok FloatOps es = true -> calls_in gauge_call es = true -> spec_c11_core true es = true.
 Check c11_int_lin : forall es s, reachable IntOps es s ->
   let h := hist IntOps s in
   proj_hist h = proj_ev IntOps es /\ hist_wf h /\ spec_run IntOps 0 (lin_calls h) = Some (cell s, lin_rets h).
@@ -179,8 +188,10 @@ Print Assumptions c11_exact_hypotheses_satisfiable.
 Print Assumptions c11_gauge_trace_valid.
 Print Assumptions c11_gauge_lost_rejected.
 Print Assumptions c11_igauge_trace_valid.
-Print Assumptions c11_spec_of_validated_partial_int.
-Print Assumptions c11_spec_of_validated_partial_float.
+Print Assumptions c11_search_of_validated_int.
+Print Assumptions c11_spec_of_validated_float_partial.
 Print Assumptions c11_spec_from_clauses.
 Print Assumptions c11_gauge_trace_in_domain.
 Print Assumptions c11_igauge_trace_in_domain.
+Print Assumptions c11_spec_of_validated_int.
+Print Assumptions c11_igauge_trace_spec_by_theorem.
